@@ -322,7 +322,7 @@ package astits
 //@   let oExt2 = oPSTD + ite(hasPSTD, 2, 0)
 //@   let e2len = int(old(ib(i, oExt2)) & 0x7f)
 //@   let consumed = ite(hasExt, ite(hasExt2, oExt2 + 1 + e2len, oExt2), oExtF)
-//@   split hasExt, ind == 2, ind == 3, hasExt2
+//@   split hasExt, ind == 2, ind == 3, hasExt2, hasPD, hasPSTD, hasESCR
 //@   at read PESOptionalHeader.PTSDTSIndicator#0 assert fInd: h.PTSDTSIndicator == ind
 //@   at read PESOptionalHeader.HasESCR#0 assert fESCR: h.HasESCR == hasESCR
 //@   at read PESOptionalHeader.HasESCR#0 assert cESCR: i.offset == o + oESCR
